@@ -245,6 +245,11 @@ func (en *Engine) checkProperty(id, tier, verif, workdir string, t0 time.Time) i
 			}
 			continue
 		}
+		if d.Res.Verdict == "sat" && d.O.Info["approx"] != "" {
+			// the path crossed an over-approximation (a loop without invariant): the model is not a counterexample of the code
+			undecided = append(undecided, fmt.Sprintf("%s: proof failed behind an over-approximation (%s); not a counterexample", d.O.Name, d.O.Info["approx"]))
+			continue
+		}
 		if d.Res.Verdict == "sat" {
 			failures = append(failures, Failure{Name: d.O.Name, Base: baseName(d.O.Name), Verdict: "sat", Solver: d.Res.Solver, Output: d.Res.Output, Script: d.Txt, Pos: d.O.Pos, Kind: d.O.Kind})
 		} else {
